@@ -635,6 +635,8 @@ class FunctionLowerer:
         lo.line1 = e.get("_line", l0)
         txt = self.stmt(body[0], 0)
         lo.proto = decl + ";"
+        lo.params = ps
+        lo.ret = rt
         lo.text = "%s%s\n__FC_%s\n%s" % (self.line(self.f), decl, self.cname, txt)
         lo.loops = self.loops
         lo.calls = self.calls
@@ -1350,7 +1352,7 @@ class FunctionLowerer:
             self.ensure_proto(d, cn)
             if cn == self.cname and cn in self.u.rec_stubs:
                 # the recursive call is the function's own contract (induction on depth)
-                self.u.protos[cn + "__rec"] = self.u.protos[cn].split("\n")[0].replace(cn + "(", cn + "__rec(") + ";"
+                self.u.protos[cn + "__rec"] = self.u.protos[cn].split("\n")[0].replace(cn + "(", cn + "__rec(") + "\n__RC_%s;" % cn
                 cn = cn + "__rec"
             return "%s(%s)" % (cn, ", ".join(self.call_args(d, args)))
         return self.std_call(n, name, args)
@@ -1582,7 +1584,7 @@ class FunctionLowerer:
             if cn == self.cname and cn in self.u.rec_stubs:
                 # induction on the depth of the object tree: the recursive call is the function's
                 # own contract, provided by the spec as <name>__rec
-                self.u.protos[cn + "__rec"] = self.u.protos[cn].split("\n")[0].replace(cn + "(", cn + "__rec(") + ";"
+                self.u.protos[cn + "__rec"] = self.u.protos[cn].split("\n")[0].replace(cn + "(", cn + "__rec(") + "\n__RC_%s;" % cn
                 cn = cn + "__rec"
         a = self.call_args(md, args)
         return "%s(%s)" % (cn, ", ".join([objs] + a))
